@@ -49,6 +49,9 @@ type executor struct {
 	instantiating int          // instance id whose instantiation is running (-1 none)
 	closing       map[int]bool // instances the host has closed or is closing (incl. through their runtime)
 	instRT        map[int]int
+	instSlot      map[int]int
+	live          map[int]bool // instantiated successfully
+	namedInst     [maxRT]map[int]int
 	tearing       bool
 	curKind       string
 	inCall        bool
@@ -165,9 +168,18 @@ func runHistory(h *History, twin bool, progress func(step int)) *childOut {
 	}
 	e.insts = make([]api.Module, h.NInst)
 	e.instantiating, e.closing, e.instRT = -1, map[int]bool{}, map[int]int{}
+	e.instSlot, e.live = map[int]int{}, map[int]bool{}
+	for r := range e.namedInst {
+		e.namedInst[r] = map[int]int{}
+	}
 	for _, st := range h.Steps {
 		if st.Kind == "inst" {
-			e.instRT[st.Inst] = st.RT
+			e.instRT[st.Inst], e.instSlot[st.Inst] = st.RT, st.Slot
+		}
+		if st.Kind == "concinst" {
+			for i := 0; i < st.N; i++ {
+				e.instRT[st.Inst+i], e.instSlot[st.Inst+i] = st.RT, int(st.Args[i])
+			}
 		}
 	}
 	if h.Alloc {
@@ -365,6 +377,7 @@ func (e *executor) concInst(op *Op) string {
 		sb.WriteString(errs[i])
 		if mods[i] != nil {
 			e.insts[op.Inst+i] = mods[i]
+			e.live[op.Inst+i] = true
 			sb.WriteString("/" + e.callExport(mods[i], "install", []uint64{uint64(op.Idx + i)}))
 		}
 		sb.WriteByte(' ')
@@ -425,6 +438,10 @@ func (e *executor) exec(op *Op, inCall bool) string {
 				return errClass(err)
 			}
 			e.insts[op.Inst] = mod
+			e.live[op.Inst] = true
+			if op.Name != "" {
+				e.namedInst[op.RT][op.Slot] = op.Inst
+			}
 			e.count("instantiations")
 			return "ok"
 		})
